@@ -49,7 +49,7 @@ CONFIG = dict(
         "opaqueMac_ideal", "opaqueMac_opaque", "C15_without_guard_malleable",
     ]] + ["SigModel.Base64.decode_encode", "SigModel.Base64.canonical_iff", "SigModel.Hmac.toyMac_ideal"],
     generated=["SessionId"],
-    harness=dict(pkg="signaling", test="TestVerifC15"),
+    harness=dict(pkg="signaling", test="TestVerifC15", files=["zz_verif_hex_test.go"]),
     stats=c15_stats,
     nontrivial=c15_nontrivial,
     rule="per case two key sets (hash keys of 1..100 bytes, with/without AES block key; pairs sharing the hash key, differing "
